@@ -126,15 +126,22 @@ def load_forms(forms_src, tmpdir):
 class Graph:
     """A converted form: its ModelProto, an ORT session (optimisations disabled) and the op skeleton."""
 
-    def __init__(self, fn):
+    def __init__(self, fn, inline=False):
+        """inline: the function calls other script functions (attribute parameters); the local functions are inlined so that
+        the skeleton (which reads Constant values) sees the attribute values the caller passed."""
         import onnxruntime as ort
         self.err = None
         self.sess = None
         self.proto = None
         try:
             self.proto = fn.to_model_proto()
+            if inline:
+                import onnx.inliner
+                self.called = [(f.name, [n.op_type for n in f.node]) for f in self.proto.functions]
+                self.proto = onnx.inliner.inline_local_functions(self.proto)
         except Exception as e:
             self.err = f"to_model_proto {type(e).__name__}: {str(e)[:200]}"
+            self.proto = None
             return
         so = ort.SessionOptions()
         so.graph_optimization_level = ort.GraphOptimizationLevel.ORT_DISABLE_ALL
@@ -206,6 +213,15 @@ class Graph:
                 v = np.reshape(np.asarray(value(n.input[0])), tuple(int(x) for x in value(n.input[1])))
             elif n.op_type == "Identity":
                 v = value(n.input[0])
+            elif n.op_type in ("Add", "Sub", "Mul") and len(n.input) == 2:      # index arithmetic: A[i+1:i+2]
+                a, b = (np.asarray(value(i)) for i in n.input)
+                if a.dtype != np.int64 or b.dtype != np.int64:
+                    raise ValueError(f"operand {name}: {n.op_type} on {a.dtype}/{b.dtype}")
+                v = {"Add": np.add, "Sub": np.subtract, "Mul": np.multiply}[n.op_type](a, b)
+            elif n.op_type == "Neg":
+                v = -np.asarray(value(n.input[0]))
+            elif n.op_type == "CastLike" and len(n.input) == 2:                 # the literal of i+1, cast to the type of i
+                v = np.asarray(value(n.input[0])).astype(np.asarray(value(n.input[1])).dtype)
             else:
                 raise ValueError(f"operand {name} produced by {n.op_type}")
             env[name] = v
@@ -260,7 +276,8 @@ class Graph:
         n_data = sum(1 for n in g.node if n.op_type in ("Slice", "Squeeze", "Gather", "Identity"))
         if n_data != len(chain):
             raise ValueError(f"{n_data} indexing nodes in the graph, {len(chain)} on the data path")
-        other = sorted({n.op_type for n in g.node} - {"Slice", "Squeeze", "Gather", "Identity", "Constant", "Concat", "Reshape"})
+        other = sorted({n.op_type for n in g.node} - {"Slice", "Squeeze", "Gather", "Identity", "Constant", "Concat", "Reshape",
+                                                      "Add", "Sub", "Mul", "Neg", "CastLike"})
         if other:
             raise ValueError(f"unexpected ops {other}")
         return chain
